@@ -264,6 +264,17 @@ func (v *verifier) validEntryBetween(key partKey, k int, lo, hi int64) *entryRec
 	return nil
 }
 
+// storedAtRemoval: the sequence stored with the family's flushed data when the garbage collector removed the partition.
+func (v *verifier) storedAtRemoval(key partKey) int64 {
+	stored := int64(-1)
+	for _, r := range v.L.Removals {
+		if r.Part == key && r.Stored > stored {
+			stored = r.Stored
+		}
+	}
+	return stored
+}
+
 // anyEntryStarted: had a WriteLog of the partition been called when image k was taken?
 func (v *verifier) anyEntryStarted(key partKey, k int) bool {
 	for i := range v.L.Entries {
@@ -670,6 +681,11 @@ func (v *verifier) checkData(res *imgResult, n *node.Node, k int, obs map[partKe
 	classifyLost := func(ref *rowRef) string {
 		e := ref.entry
 		o := obs[e.Part]
+		if e.Gen > 0 && e.AppliedTick == 0 && e.Seq <= v.storedAtRemoval(e.Part) {
+			// the log of this partition was re-created (sequence 0 again) after the garbage collector had removed the
+			// drained one; the family still remembers the sequence stored with its flushed data and refuses the entry
+			return "C07/late-write-refused-after-log-garbage-collection/sequence-of-the-new-log-at-or-below-the-stored-sequence"
+		}
 		if v.inHole(ref, k) {
 			res.Counters["rows_damaged_in_the_flush_protocol_window"]++
 			if e.Seq > o.Durable {
